@@ -3,13 +3,15 @@ import json
 from .. import common, gen, pool, pipefam, readerfam
 
 RULE = ("sets of 1-8 chromosome names from pools designed around file-name sorting (Chr1..Chr12, prefix families Chr1/Chr10/Chr1_A/Chr1-alt, "
-        "punctuation on both sides of '.' and '_', digits, case pairs) -> real result directories produced by the library stages -> both "
+        "punctuation on both sides of '.' and '_', digits, case pairs, stems ending in '5' / 'h' / '.' / '.h5') -> real result directories produced by the library stages -> both "
         "directory-level constructors with DensityData.__init__ wrapped (from the harness) to record which gene annotation each result "
         "file received, the served contents compared with the raw file of the paired chromosome; directories made to mismatch (equal counts incl. one file vs one "
         "annotation, unequal counts) must be refused; non-trivial = name set whose sorted .h5 order differs from its sorted _GeneData.tsv order; distinct = name set")
 POOLS = [["Chr1.1", "Chr1.2", "Chr1", "Chr1.10", "Chr2.1"], ["scaffold_1.1", "scaffold_1.2", "scaffold_1", "scaffold_11", "scaffold.1"],
          ["Chr%d" % i for i in range(1, 13)], ["Chr1", "Chr10", "Chr1_A", "Chr1-alt", "Chr1.1", "Chr100"], ["A", "A-", "A_", "A.b", "A0", "AA"],
-         ["x", "x-1", "x_1", "x.1", "x+1", "x 1"], ["scaf", "Scaf", "SCAF", "scaf_", "scaf2", "scaf_2"], ["1", "10", "2", "007", "1e3", "01"]]
+         ["x", "x-1", "x_1", "x.1", "x+1", "x 1"], ["scaf", "Scaf", "SCAF", "scaf_", "scaf2", "scaf_2"], ["1", "10", "2", "007", "1e3", "01"],
+         # stems ending in the characters of the extension: a sloppy way of cutting ".h5" off makes two files share a derived name
+         ["Chr1", "Chr15", "Chr5", "Chr55", "Chr155", "Chr1h"], ["Ch", "Chh", "Ch5", "Ch.", "Ch.h5", "C"], ["a.h", "a.h5", "a", "a5", "a.", "a.h5.h5"]]
 
 
 def order_differs(names):
